@@ -405,7 +405,127 @@ def gen_getters():
     return "\n".join(out) + "\n"
 
 
-UNITS = {"GenIds.v": gen_ids, "GenGetters.v": gen_getters}
+# --------------------------------------------------------------------------
+# unit "write": micro-step programs of the outbound path (C15)
+# --------------------------------------------------------------------------
+def _is_log_call(st):
+    if isinstance(st, ast.Expr) and isinstance(st.value, ast.Call):
+        n = _dotted(st.value.func) or ""
+        return n.startswith("self.logger.") or n.startswith("self.msg_dump.") or n.startswith("self.connection_logger.")
+    return False
+
+
+def _writer_program(fn, path):
+    prog = []
+
+    def stmts(body):
+        for st in body:
+            if _is_log_call(st):
+                continue
+            if isinstance(st, ast.While):
+                stmts(st.body)
+            elif isinstance(st, ast.If) and "is_stopped" in ast.dump(st.test):
+                continue
+            elif isinstance(st, ast.Try):
+                # except queue.Empty: continue   /   except Exception: log
+                for h in st.handlers:
+                    dn = _dotted(h.type) if h.type is not None else "BaseException"
+                    if dn not in ("queue.Empty", "Exception"):
+                        raise TranslationError(f"{path}:{h.lineno}: unexpected handler {dn} in work_write_queue")
+                    for hs in h.body:
+                        if not (_is_log_call(hs) or isinstance(hs, ast.Continue)):
+                            raise TranslationError(f"{path}:{hs.lineno}: unexpected statement in handler")
+                had_enc = any(isinstance(x, ast.AugAssign) for x in ast.walk(ast.Module(st.body, [])))
+                if had_enc and not any(_dotted(h.type) == "Exception" for h in st.handlers):
+                    raise TranslationError(f"{path}:{st.lineno}: encode failure is not caught by `except Exception`")
+                stmts(st.body)
+            elif isinstance(st, (ast.Assign, ast.AnnAssign)) and isinstance(st.value, ast.Call) and \
+                    (_dotted(st.value.func) or "").endswith("_write_msg_queue.get"):
+                prog.append("WGet")
+            elif isinstance(st, ast.With) and len(st.items) == 1 and _is_self_attr(st.items[0].context_expr, "write_lock"):
+                prog.append("WAcq")
+                stmts(st.body)
+                prog.append("WRel")
+            elif isinstance(st, ast.AugAssign) and _is_self_attr(st.target, "_write_buffer") and isinstance(st.op, ast.Add) \
+                    and isinstance(st.value, ast.Call) and (_dotted(st.value.func) or "").endswith(".as_bytes"):
+                prog.extend(["WLoad", "WEnc", "WStore"])
+            elif isinstance(st, ast.Expr) and isinstance(st.value, ast.Call) and _dotted(st.value.func) == "self.demand_attention":
+                prog.append("WSignal")
+            else:
+                raise TranslationError(f"{path}:{st.lineno}: unsupported statement in work_write_queue: {type(st).__name__}")
+    stmts(_strip_doc(fn.body))
+    return prog
+
+
+def _remove_out_bytes_program(fn, path):
+    body = _strip_doc(fn.body)
+    if len(body) != 1 or not isinstance(body[0], ast.Assign) or not _is_self_attr(body[0].targets[0], "_write_buffer"):
+        raise TranslationError(f"{path}:{fn.lineno}: remove_out_bytes shape changed")
+    v = body[0].value
+    ok = (isinstance(v, ast.Subscript) and _is_self_attr(v.value, "_write_buffer") and isinstance(v.slice, ast.Slice)
+          and v.slice.upper is None and v.slice.step is None and isinstance(v.slice.lower, ast.Name)
+          and v.slice.lower.id == fn.args.args[1].arg)
+    if not ok:
+        raise TranslationError(f"{path}:{body[0].lineno}: expected self._write_buffer = self._write_buffer[n:]")
+    return ["ILoad", "IStore"]
+
+
+def _io_send_program(fn, path, rob):
+    """the send branch of Node._handle_connections: `for wsock in ready_w:` ... send ... with lock: remove"""
+    loop = None
+    for n in ast.walk(fn):
+        if isinstance(n, ast.For) and isinstance(n.iter, ast.Name) and n.iter.id == "ready_w":
+            loop = n
+    if loop is None:
+        raise TranslationError(f"{path}:{fn.lineno}: `for wsock in ready_w` not found")
+    prog = []
+    seen_send = False
+    for st in loop.body:
+        if isinstance(st, ast.Try) and any(isinstance(x, ast.Call) and (_dotted(x.func) or "").endswith(".send") for x in ast.walk(st)):
+            sends = [x for x in ast.walk(ast.Module(st.body, [])) if isinstance(x, ast.Call) and (_dotted(x.func) or "") == "wsock.send"]
+            if len(sends) != 1 or _dotted(sends[0].args[0]) != "conn.write_buffer":
+                raise TranslationError(f"{path}:{st.lineno}: expected exactly one wsock.send(conn.write_buffer)")
+            # the handler must `continue` (no removal after a failed send)
+            for h in st.handlers:
+                if not any(isinstance(x, ast.Continue) for x in h.body):
+                    raise TranslationError(f"{path}:{h.lineno}: failed send does not `continue`")
+            prog.append("ISend")
+            seen_send = True
+        elif isinstance(st, ast.With) and len(st.items) == 1 and _dotted(st.items[0].context_expr) == "conn.write_lock":
+            if not seen_send:
+                raise TranslationError(f"{path}:{st.lineno}: write_lock region before the send")
+            prog.append("IAcq")
+            first = True
+            for b in st.body:
+                if isinstance(b, ast.Expr) and isinstance(b.value, ast.Call) and _dotted(b.value.func) == "conn.remove_out_bytes":
+                    if not first or _dotted(b.value.args[0]) != "sent_bytes":
+                        raise TranslationError(f"{path}:{b.lineno}: remove_out_bytes(sent_bytes) must come first in the lock region")
+                    prog.extend(rob)
+                elif any(isinstance(x, ast.Call) and (_dotted(x.func) or "").endswith(".send") for x in ast.walk(b)):
+                    raise TranslationError(f"{path}:{b.lineno}: send inside the lock region")
+                first = False
+            prog.append("IRel")
+        elif any(isinstance(x, ast.Call) and _dotted(x.func) == "conn.remove_out_bytes" for x in ast.walk(st)):
+            raise TranslationError(f"{path}:{st.lineno}: remove_out_bytes outside the write_lock region")
+    return prog
+
+
+def gen_write():
+    ppath, ptree = _parse("node/peer.py")
+    pc = _find_class(ptree, "PeerConnection", ppath)
+    wp = _writer_program(_find_func(pc, "work_write_queue", ppath), ppath)
+    rob = _remove_out_bytes_program(_find_func(pc, "remove_out_bytes", ppath), ppath)
+    npath, ntree = _parse("node/node.py")
+    nc = _find_class(ntree, "Node", npath)
+    ip = _io_send_program(_find_func(nc, "_handle_connections", npath), npath, rob)
+    return ("(* GENERATED by tools/translate.py from node/peer.py (work_write_queue, remove_out_bytes) and\n"
+            "   node/node.py (send branch of _handle_connections) -- do not edit *)\n"
+            "From DV Require Import Prelude.Base Model.WriteBuf.\n"
+            f"Definition writer_prog_gen : list winstr := [{'; '.join(wp)}].\n"
+            f"Definition io_prog_gen : list iinstr := [{'; '.join(ip)}].\n")
+
+
+UNITS = {"GenIds.v": gen_ids, "GenGetters.v": gen_getters, "GenWrite.v": gen_write}
 
 
 def regenerate(outdir, units=None):
